@@ -1,4 +1,5 @@
 #![allow(dead_code, unused_variables, unused_imports)]
+mod checks_c12;
 mod checks_e1;
 mod dump;
 mod e1;
@@ -45,7 +46,14 @@ fn engine_shard(id: &str, tier: &str, seed: u64, replay: Option<&serde_json::Val
     match id {
         "C12" => {
             let plan = checks_e1::plan_for("C12H", tier).unwrap();
-            checks_e1::shard_run(&plan, seed, replay_case, shard)
+            let mut out = ShardOut::default();
+            if replay_case.map(|c| c < 1_000_000).unwrap_or(true) {
+                out.merge(checks_e1::shard_run(&plan, seed, replay_case, shard));
+            }
+            if replay_case.map(|c| c >= 1_000_000).unwrap_or(true) && out.found.is_empty() {
+                out.merge(checks_c12::shard_run(tier, seed, replay_case, shard));
+            }
+            out
         }
         _ => {
             eprintln!("unknown check {id}");
